@@ -95,6 +95,14 @@ def csiDispatch (c : Nat) (params : List Nat) (priv : Bool) : List Call :=
   else if isStr c DECSTBM then [.setMargins p0 p1]
   else []
 
+/-- The `private` argument `csi_dispatch` passes to `erase_in_display`, `erase_in_line` and
+    `report_device_attributes` (the three operations that take one): `Some(true)` for a sequence marked
+    with `?`, nothing otherwise - pyte's `**{"private": True}`.  Coded 0 = the final is none of the three,
+    1 = `None`, 3 = `Some(true)`; the listener's event carries it, the model's `Call` does not need to
+    (the three operations of `Screen` ignore it or are stubs). -/
+def csiPrivateArg (c : Nat) (priv : Bool) : Nat :=
+  if isStr c ED || isStr c EL || isStr c DA then (if priv then 3 else 1) else 0
+
 def isDigit (c : Nat) : Bool := 48 ≤ c && c ≤ 57
 
 /-- value of a digit string (most significant first) -/
@@ -117,11 +125,20 @@ def dispatchTop (utf8 : Bool) (c : Nat) : PState × List Call :=
   else if isStr c OSC then (.oscCode, [])
   else (.ground, [])
 
+/-- the code of an OSC string is the whole text before its first `;`: the string collected after
+    the one-character code must be empty or start with the separator (`OSC 10 ; x`, `OSC 133 ; A` are
+    other commands, not OSC 1 with a payload that begins inside the code) -/
+def oscCodeEnds : List Nat → Bool
+  | [] => true
+  | c :: _ => c == 59
+
 /-- the calls made when an OSC string is complete -/
 def oscFinish (code : Nat) (param : List Nat) : List Call :=
-  let p := param.drop 1
-  (if [48, 49].contains code then [Call.setIconName p] else []) ++
-  (if [48, 50].contains code then [Call.setTitle p] else [])
+  if oscCodeEnds param then
+    let p := param.drop 1
+    (if [48, 49].contains code then [Call.setIconName p] else []) ++
+    (if [48, 50].contains code then [Call.setTitle p] else [])
+  else []
 
 /-- `parser_fsm.send(c)`: new coroutine state and the listener calls made on the way. -/
 def send (utf8 : Bool) (st : PState) (c : Nat) : PState × List Call :=
@@ -153,7 +170,7 @@ def send (utf8 : Bool) (st : PState) (c : Nat) : PState × List Call :=
       else (.ground, csiDispatch c params priv)
   | .csiDollar => (.ground, [])
   | .oscCode =>
-    if c == 82 || c == 112 then (.ground, [])                                    -- "R" "p"
+    if c == 82 then (.ground, [])                                                -- "R" (Linux: reset palette)
     else if isStr c ESC then (.oscFirstEsc, [])
     else if OSC_TERMINATORS.contains [c] then (.ground, [])
     else (.oscParam c [], [])
